@@ -15,6 +15,7 @@
 #include "mc.h"
 #include "json.h"
 #include <errno.h>
+#include <limits.h>
 #include <stdlib.h>
 #include <string.h>
 
@@ -464,6 +465,56 @@ static void explore_text_inner(void)
 				json_tokener_free(tok);
 			if (opt_reset_probes)
 				check_reset_equals_new(n, i, j, o.key ^ ((uint64_t)o.status << 60) ^ ((uint64_t)o.err << 52));
+		}
+	}
+	if (opt_mode == 1)
+	{
+		/* the length argument itself: -1 means "up to and including the NUL"; anything below is refused
+		 * with the size error before a single byte is read */
+		size_t sl = 0;
+		while (sl < TL && T[sl])
+			sl++;
+		char *buf = mc_guard_buf(sl + 1);
+		memcpy(buf, T, sl);
+		buf[sl] = 0;
+		struct outcome a, b;
+		for (int which = 0; which < 2; which++)
+		{
+			struct json_tokener *tok = new_tok();
+			calls++;
+			struct json_object *obj = json_tokener_parse_ex(tok, buf, which ? -1 : (int)sl + 1);
+			struct outcome *o = which ? &b : &a;
+			memset(o, 0, sizeof *o);
+			o->err = (int)json_tokener_get_error(tok);
+			o->end_abs = json_tokener_get_parse_end(tok);
+			o->status = o->err == json_tokener_success ? ST_SUCCESS : o->err == json_tokener_continue ? ST_CONTINUE : ST_ERROR;
+			if (o->status == ST_SUCCESS)
+			{
+				sb_reset(&dumpbuf);
+				vf_dump(obj, &dumpbuf, DUMP_SER);
+				o->valhash = mc_hash(dumpbuf.p, dumpbuf.n, 3);
+			}
+			if (obj)
+				json_object_put(obj);
+			json_tokener_free(tok);
+		}
+		if (!same_outcome(&a, &b))
+		{
+			char x[96], y[96];
+			mc_violation("length-minus-one-differs", "length -1 gives %s; the explicit length %zu (with the NUL) gives %s", oc_str(&b, x, sizeof x), sl + 1, oc_str(&a, y, sizeof y));
+		}
+		static const int bad[] = {-2, -3, -65536, INT_MIN};
+		char *edge = mc_guard_buf(1) + 1; /* first byte of the guard page: any read faults */
+		for (unsigned k = 0; k < 4; k++)
+		{
+			struct json_tokener *tok = new_tok();
+			calls++;
+			struct json_object *obj = json_tokener_parse_ex(tok, edge, bad[k]);
+			if (obj || json_tokener_get_error(tok) != json_tokener_error_size)
+				mc_violation("negative-length-not-refused", "length %d: returned %s with status %s", bad[k], obj ? "a value" : "NULL", json_tokener_error_desc(json_tokener_get_error(tok)));
+			if (obj)
+				json_object_put(obj);
+			json_tokener_free(tok);
 		}
 	}
 	if (truncated)
